@@ -442,7 +442,12 @@ fn lex_block_comment(l: &mut Lexer<'_>, index: usize) -> Option<CommentedTokenTr
     let mut unclosed_indices = vec![index];
 
     let unclosed_multiline_comment = |l: &Lexer<'_>, unclosed_indices: Vec<_>| {
-        let span = span(l, *unclosed_indices.last().unwrap(), l.src.text.len() - 1);
+        // the last character may be multi-byte: end the span at its start
+        let mut end = l.src.text.len() - 1;
+        while !l.src.text.is_char_boundary(end) {
+            end -= 1;
+        }
+        let span = span(l, *unclosed_indices.last().unwrap(), end);
         let kind = LexErrorKind::UnclosedMultilineComment { unclosed_indices };
         error(l.handler, LexError { kind, span });
         None
